@@ -470,15 +470,24 @@ def ensureMid (st : List Trx × Nat) (i : Nat) : List Trx × Nat :=
     | none => (modifyAt (fun t => { t with mid := some (natStr st.2) }) st.1 i, (st.2 + 1) % 65536)
   | none => st
 
-def createOffer (pc : Pc) : Pc × Res :=
+/-- `create_offer`. `sectionBindFails` — ENVIRONMENT + CONFIGURATION: the first socket can be bound, a FURTHER one
+cannot (port range exhausted), and the offer is not bundled (`LegacySip`), so every further m-line binds a
+socket of its own inside the section loop — AFTER every mid was assigned. -/
+def createOfferEnv (sectionBindFails : Bool) (pc : Pc) : Pc × Res :=
   if pc.sig ≠ .stable then (pc, .err .invalidState)
   else if pc.trxs.isEmpty then (pc, .err .invalidState)
-  -- the direct modes bind (RTP) / gather, wait and bind (SDES-SRTP) BEFORE any mid is assigned
+  -- the direct modes bind (RTP) / gather, wait and bind (SDES-SRTP) their FIRST socket BEFORE any mid is assigned
   -- (round-2 / round-3 `fix:`)
   else if pc.bindFails && (pc.mode = .rtp || pc.mode = .srtp) then (pc, .err .internal)
   else
     let r := (List.range pc.trxs.length).foldl ensureMid (pc.trxs, pc.nextMid)
-    ({ pc with trxs := r.1, nextMid := r.2 }, .ok)
+    let pc' := { pc with trxs := r.1, nextMid := r.2 }
+    if sectionBindFails && (pc.mode = .rtp || pc.mode = .srtp) && pc.trxs.length > 1 then (pc', .err .internal)
+    else (pc', .ok)
+
+/-- `create_offer` when every further socket can be bound — the only environment the correspondence run has
+(the other one needs exactly one free port on the host; reproduced by hand, NOTES "Known findings") -/
+def createOffer (pc : Pc) : Pc × Res := createOfferEnv false pc
 
 /-- section → transceiver matching of `build_description(Answer)`; `none` = "No transceiver found" -/
 def answerOrder (ts : List Trx) : List Section → List Nat → List Nat → Option (List Nat)
